@@ -776,3 +776,69 @@ impl Module {
         Ok(out)
     }
 }
+
+// ---------------------------------------------------------------------------------------------
+// entry points
+
+#[derive(Debug, Clone)]
+pub struct EntryHelper {
+    pub fn_name: String,
+    pub params: Vec<(String, String)>,
+    pub ret: String,
+    /// the struct literal returned (`VertexEntry { .. }` / `FragmentEntry { .. }`)
+    pub literal: Val,
+}
+
+#[derive(Debug, Clone)]
+pub struct ComputeInfo {
+    pub workgroup_consts: Vec<ConstInfo>,
+    /// (fn name, params, descriptor literal, let-bindings of the body)
+    pub pipelines: Vec<(String, Vec<(String, String)>, Val, interp::Env, String)>,
+}
+
+impl Module {
+    /// All top-level `*_entry` functions returning `VertexEntry<..>` or `FragmentEntry<..>`.
+    pub fn entry_helpers(&self, kind: &str) -> Result<Vec<EntryHelper>, String> {
+        let mut out = vec![];
+        for f in &self.top.fns {
+            if f.ret.starts_with(&format!("{kind}<")) {
+                let lits = find_struct_literals(&f.block, kind);
+                if lits.len() != 1 {
+                    return Err(format!("{} {kind} literals in {}", lits.len(), f.name));
+                }
+                out.push(EntryHelper { fn_name: f.name.clone(), params: f.params.clone(), ret: f.ret.clone(), literal: lits[0].clone() });
+            }
+        }
+        Ok(out)
+    }
+
+    /// `vertex_state` / `fragment_state`: the `wgpu::VertexState { .. }` literal and the parameter names.
+    pub fn state_builder(&self, fn_name: &str, lit: &str) -> Result<Option<(Vec<(String, String)>, Val)>, String> {
+        match self.top_fn(fn_name) {
+            None => Ok(None),
+            Some(f) => {
+                let lits = find_struct_literals(&f.block, lit);
+                if lits.len() != 1 {
+                    return Err(format!("{} {lit} literals in {fn_name}", lits.len()));
+                }
+                Ok(Some((f.params.clone(), lits[0].clone())))
+            }
+        }
+    }
+
+    pub fn compute(&self) -> Result<Option<ComputeInfo>, String> {
+        let scope = match self.mod_scope("compute") {
+            Some(s) => s,
+            None => return Ok(None),
+        };
+        let mut pipelines = vec![];
+        for f in &scope.fns {
+            let lits = find_struct_literals(&f.block, "ComputePipelineDescriptor");
+            if lits.len() != 1 {
+                return Err(format!("{} ComputePipelineDescriptor literals in {}", lits.len(), f.name));
+            }
+            pipelines.push((f.name.clone(), f.params.clone(), lits[0].clone(), let_env(&f.block), f.ret.clone()));
+        }
+        Ok(Some(ComputeInfo { workgroup_consts: scope.consts.clone(), pipelines }))
+    }
+}
